@@ -83,6 +83,17 @@ def main():
     except OSError:
         pass
     meta['ran'] = 'tools/seed_eval.py %s %s %s' % (pid, n, ' '.join(checks))
+    # keep the history of evaluations (the repository and the checks both move on)
+    head = sh('git -C /repo log --format=%h -1')[1].strip()
+    runs = []
+    try:
+        runs = json.load(open(os.path.join(dest, 'meta.json'))).get('runs', [])
+    except (OSError, ValueError):
+        pass
+    runs.append({'repo_head': head, 'confirmed': meta['confirmed'], 'checks': {c: v['exit'] for c, v in meta['checks'].items()}})
+    meta['runs'] = runs
+    if not meta['confirmed'] and any(r['confirmed'] for r in runs):
+        meta['note'] = 'the patch was confirmed against an earlier /repo HEAD; it no longer applies or no longer breaks at the current HEAD'
     json.dump(meta, open(os.path.join(dest, 'meta.json'), 'w'), indent=1)
     return 0
 
